@@ -1,0 +1,68 @@
+//go:build verif
+
+package state_machines
+
+// (checked by /verif/gocv; comment-only file)
+
+// A round is persisted as the JSON of FSMDump and restored from it before every message: every field of the
+// dump, at every depth, must survive encode/decode.
+//@ roundtrip[C19.rt.dump,C08.rt.dump] FSMDump
+
+// Every state a round can be in must be restorable (cancelled and finished rounds included): one obligation
+// per state of the three machines, decided on the tables produced by the real constructors.
+//@ tables[C19.load] loadable
+
+//@ import fsm_pool "github.com/lidofinance/dc4bc/fsm/fsm_pool"
+//@ import fsm "github.com/lidofinance/dc4bc/fsm/fsm"
+//@ import node "github.com/lidofinance/dc4bc/client/services/node"
+//@ import storage "github.com/lidofinance/dc4bc/storage"
+//@ import types "github.com/lidofinance/dc4bc/client/types"
+//@ import spf "github.com/lidofinance/dc4bc/fsm/state_machines/signature_proposal_fsm"
+//@ import dpf "github.com/lidofinance/dc4bc/fsm/state_machines/dkg_proposal_fsm"
+//@ import sif "github.com/lidofinance/dc4bc/fsm/state_machines/signing_proposal_fsm"
+
+// constructors (their tables are evaluated by running them; here only: a fresh object)
+//@ func github.com/lidofinance/dc4bc/fsm/fsm_pool.Init
+//@   assumed
+//@   pure
+//@   ensures result != nil && fresh(result)
+//@ func github.com/lidofinance/dc4bc/fsm/state_machines/signature_proposal_fsm.New
+//@   assumed
+//@   pure
+//@   ensures result != nil
+//@ func github.com/lidofinance/dc4bc/fsm/state_machines/dkg_proposal_fsm.New
+//@   assumed
+//@   pure
+//@   ensures result != nil
+//@ func github.com/lidofinance/dc4bc/fsm/state_machines/signing_proposal_fsm.New
+//@   assumed
+//@   pure
+//@   ensures result != nil
+//@ func (*github.com/lidofinance/dc4bc/fsm/fsm_pool.FSMPool).MachineByState
+//@   nosafety
+//@   requires p != nil
+//@   pure
+//@   ensures[C19.restore.machine] result1 == nil ==> result0 != nil
+// the pool is always built from the three machines below (FromDump and Create pass exactly New(), New(), New())
+//@   trusted[C19.pool.types] result1 == nil ==> istype(result0, "*spf.SignatureProposalFSM") || istype(result0, "*dpf.DKGProposalFSM") || istype(result0, "*sif.SigningProposalFSM")
+//@ func (*github.com/lidofinance/dc4bc/fsm/state_machines/signature_proposal_fsm.SignatureProposalFSM).WithSetup
+//@   nosafety
+//@   modifies spf.SignatureProposalFSM.payload, spf.SignatureProposalFSM.FSM, fsm.FSM.currentState
+//@   ensures[C19.restore.machine] result != nil && (m != nil ==> m.payload == payload)
+//@ func (*github.com/lidofinance/dc4bc/fsm/state_machines/dkg_proposal_fsm.DKGProposalFSM).WithSetup
+//@   nosafety
+//@   modifies dpf.DKGProposalFSM.payload, dpf.DKGProposalFSM.FSM, fsm.FSM.currentState
+//@   ensures[C19.restore.machine] result != nil && (m != nil ==> m.payload == payload)
+//@ func (*github.com/lidofinance/dc4bc/fsm/state_machines/signing_proposal_fsm.SigningProposalFSM).WithSetup
+//@   nosafety
+//@   modifies sif.SigningProposalFSM.payload, sif.SigningProposalFSM.FSM, fsm.FSM.currentState
+//@   ensures[C19.restore.machine] result != nil && (m != nil ==> m.payload == payload)
+
+// A restored round has the machine that owns its state, set up with the restored state and payload: it is the
+// same object kind the live round had, so every later event is handled by the same contracts (C05/C06).
+//@ func FromDump
+//@   nosafety
+//@   modifies *
+//@   ensures unchanged("node.BaseNodeService.SkipCommKeysVerification", "node.BaseNodeService.userName", "node.BaseNodeService.state", "node.BaseNodeService.storage", "node.BaseNodeService.ctx", "[]storage.Message", "types.ReDKG.Messages")
+//@   ensures result1 == nil ==> fresh(result0)
+//@   ensures[C19.restore.machine] result1 == nil ==> result0 != nil && result0.machine != nil && result0.dump != nil
